@@ -20,7 +20,7 @@ RULE = ('one trash-empty per case with --dry-run, or in interactive mode (-i or 
         'identically rebuilt world; non-trivial = the real command would have removed something; distinct = (mode, reply class, '
         'DAYS given, #would-be-removed)')
 ASSUMPTIONS = ["a 'would remove' line for a path that does not exist (payload of an info without payload) is not counted against the property"]
-PROBES = ['trash-dir-with-hundreds-of-entries', 'dry-run', 'negative-reply', 'positive-reply', 'eof-reply', 'tty-interactive', 'flag-interactive', 'with-days',
+PROBES = ['unremovable-payload-without-info', 'announced-and-reported-as-not-removable', 'trash-dir-with-hundreds-of-entries', 'dry-run', 'negative-reply', 'positive-reply', 'eof-reply', 'tty-interactive', 'flag-interactive', 'with-days',
           'with-trash-dir', 'dry-run-printed-nonexistent', 'would-remove-lines']
 TECHNIQUE = 'deterministic simulation, differential: dry run vs real run on an identically rebuilt world; frame oracle on full snapshots'
 LEVEL_TEXT = 'seeded exploration of trash contents x replies x options; full-snapshot equality for refusals, set agreement for dry runs'
@@ -63,6 +63,19 @@ def gen(rng):
         steps.append(['d', L['home'] + '/keepdir', 0o755])
         steps.append(['f', L['home'] + '/keepdir/keep.txt', 'keep', 0o644])
         steps.append(['l', tdir_ + '/files/entabyss' + '/d' * 1100 + '/lnk', L['home'] + '/keepdir'])
+    faults = []
+    if rng.random() < 0.04:
+        # a payload WITHOUT info that cannot be removed (a read-only sub-directory with content, as in a Go module cache: EACCES
+        # for an ordinary user, emulated by a condition) and more payloads without info around it: the real run says which path it
+        # could not remove - every other announced path is removed
+        tdir_ = locs[0][0]
+        for sub_ in ('', '/files', '/info'):
+            steps.append(['d', tdir_ + sub_, 0o700])
+        steps.append(['d', tdir_ + '/files/mod-cache/ro-sub', 0o555])
+        steps.append(['f', tdir_ + '/files/mod-cache/ro-sub/pinned', 'cannot be unlinked', 0o444])
+        faults.append({'kind': 'cond', 'what': 'dir_not_writable', 'dir': '%RESOLVE%' + tdir_ + '/files/mod-cache/ro-sub'})
+        for j in range(rng.randint(1, 3)):
+            steps.append(['f', tdir_ + '/files/' + rng.choice(['aa', 'zz', 'left-over', 'm', 'n']) + '-%d' % j, 'left over', 0o644])
     extra = L['home'] + '/othertrash'
     if rng.random() < 0.3:
         G.add_trashed(steps, extra, 'x1', TG.pct(L['home'] + '/w/x1'), '2019-05-05T05:05:05', 'file', tag='x')
@@ -101,10 +114,19 @@ def gen(rng):
         'world': {'mounts': L['mounts'], 'steps': steps},
         'procs': [{'argv': argv, 'env': L['env'], 'cwd': '/', 'uid': L['uid'], 'stdin': stdin, 'tty': tty}],
         'dirsalt': rng.randrange(1 << 30),
+        'faults': faults,
     }
 
 
 def check(sim, case, st):
+    if any(isinstance(f.get('dir'), str) and f['dir'].startswith('%RESOLVE%') for f in case.get('faults', [])):
+        from model import layout as ML_
+        sim.setup(dict(case, faults=[]))
+        pre_ = sim.snap()
+        for f in case['faults']:
+            if f['dir'].startswith('%RESOLVE%'):
+                f['dir'] = ML_.resolve(pre_, f['dir'][len('%RESOLVE%'):]) or f['dir'][len('%RESOLVE%'):]
+        st.probes['unremovable-payload-without-info'] += 1
     spec = case['procs'][0]
     argv = spec['argv']
     dry = '--dry-run' in argv
@@ -180,7 +202,17 @@ def check(sim, case, st):
                 res.append(('C14/dry-run-silent-about-removal', 'the real run removes %r but --dry-run did not print it (argv %r)\nstdout: %s'
                             % (p, argv, r.outs[:600])))
                 break
+            reported_ = set()
+            for ln_ in OR.phys_lines(r2.errs):
+                if 'cannot remove ' in ln_:
+                    q_ = ln_.split('cannot remove ', 1)[1]
+                    reported_.add(q_)
+                    reported_.add(canon(q_))
             for p in pset - top_removed:
+                if p in snap0 and (p in reported_ or canon(p) in reported_):
+                    # the real run tried, could not, and said so about exactly this path
+                    st.probes['announced-and-reported-as-not-removable'] += 1
+                    continue
                 if p in snap0:
                     res.append(('C14/dry-run-printed-not-removed' + ('/info-is-a-link-to-another-info' if '_alias' in p else '/payload-deeper-than-the-recursion-limit' if '/entabyss' in p else ''), '--dry-run printed %r, which exists, but the real run does not remove it (argv %r, real exit %s, stderr %s)'
                                 % (p, argv, r2.exit, r2.errs[-300:])))
